@@ -112,6 +112,37 @@ func checkC18(c *core.Ctx) {
 			}
 		}
 	}
+	// the same test in two statements: v, ok := M[k] … if ok { …; continue }
+	lookupAt := -1
+	if idx["miss"] < 0 {
+		var okVar types.Object
+		for i, st := range loop.Body.List {
+			if as, ok := st.(*ast.AssignStmt); ok && len(as.Lhs) == 2 && len(as.Rhs) == 1 && okVar == nil {
+				if ix, ok := ast.Unparen(as.Rhs[0]).(*ast.IndexExpr); ok {
+					if _, isMap := info.TypeOf(ix.X).Underlying().(*types.Map); isMap {
+						if id, ok := ast.Unparen(ix.X).(*ast.Ident); ok {
+							if okId, ok := as.Lhs[1].(*ast.Ident); ok && okId.Name != "_" {
+								okVar = info.ObjectOf(okId)
+								seen = info.ObjectOf(id)
+								lookupAt = i
+							}
+						}
+					}
+				}
+				continue
+			}
+			if ifs, ok := st.(*ast.IfStmt); ok && okVar != nil && idx["miss"] < 0 && len(ifs.Body.List) > 0 {
+				if cid, ok := ast.Unparen(ifs.Cond).(*ast.Ident); ok && info.ObjectOf(cid) == okVar {
+					if br, ok := ifs.Body.List[len(ifs.Body.List)-1].(*ast.BranchStmt); ok && br.Tok == token.CONTINUE {
+						idx["miss"] = i
+					}
+				}
+			}
+		}
+		if idx["miss"] < 0 {
+			seen, lookupAt = nil, -1
+		}
+	}
 	for i, st := range loop.Body.List {
 		ast.Inspect(st, func(n ast.Node) bool {
 			switch x := n.(type) {
@@ -151,7 +182,11 @@ func checkC18(c *core.Ctx) {
 	}
 	pos := p.Pos(loop.Pos())
 	c.Check("R1", "sub-imports are queued only past the already-imported test", pos, idx["miss"] >= 0 && idx["append"] > idx["miss"], fmt.Sprintf("statement order in the worklist loop: %v", idx))
-	c.Check("R1", "an expanded path is marked imported", pos, idx["mark"] > idx["miss"] && idx["miss"] >= 0, fmt.Sprintf("statement order in the worklist loop: %v", idx))
+	markAfter := idx["miss"]
+	if lookupAt >= 0 {
+		markAfter = lookupAt // marked on the miss side of a lookup made ahead of the `continue`
+	}
+	c.Check("R1", "an expanded path is marked imported", pos, idx["mark"] > markAfter && idx["miss"] >= 0, fmt.Sprintf("statement order in the worklist loop: %v", idx))
 	// every way round the loop that is not an error return adds the edge: an
 	// AddEdge statement of the loop body itself precedes each `continue`, or the
 	// block that ends in the `continue` adds the edge itself first
